@@ -100,7 +100,7 @@ CHECKS = {
              "whether it succeeds or raises, by add_record sequences (update, constructors, unified, flattened, add_bundle of a document) and "
              "by allocation (c18_newRecord_wf, c18_addRecords_wf, c18_allocCont_wf); on a coherent container get_record(x) = filter of the "
              "record list by the URI x resolves to, for every spelling (c18_get_record, c18_spelling_independent); get_records(cls) = class "
-             "filter. Correspondence after every record-adding operation, in all 4 spellings, plus an independent scan oracle.",
+             "filter. Correspondence after every record-adding operation, in all 4 spellings, plus an independent scan oracle. All histories (Props/C18R): c18_reachable_wf - coherence of _records and _id_map after any sequence of the public mutators with any arguments; c18_get_record_reachable - get_record on any reachable container is the filter by the denoted URI, in insertion order.",
         note=A_COMMON + " 'prefix:local'/bare spellings denote what valid_qualified_name resolves them to (C03). The full-URI spelling "
              "needed a fix: commit (adopted default namespace).",
         technique="Lean 4 refinement proof (index = filter of list) by induction over heap operations + op-sequence correspondence",
